@@ -486,14 +486,10 @@ class Linalg:
         inverse = Linalg.invert(matrix)
         result = np.dot(inverse, force)
         if numbtype is int:
-            all_int = True
             for i, line in enumerate(result):
                 for j, elem in enumerate(line):
                     if elem.denominator == 1:
                         result[i, j] = int(elem)
-                    else:
-                        all_int = False
-            result = result.astype("int64") if all_int else result
         return totuple(result)
 
     @staticmethod
